@@ -543,7 +543,7 @@ def run_pass(state, data):
     return ("other", "pubs=%d bcs=%d" % (len(pubs), len(bcs)))
 
 
-_PB = {"quick": {"A": "'ab'", "N": 2, "K": "(0, 1, 4, 5, 6)", "NK3": 2, "RK": 0}, "thorough": {"A": "'ab_'", "N": 2, "K": "(0, 1, 3, 4, 5, 6, 7, 10, 11)", "NK3": 6, "RK": 1}}
+_PB = {"quick": {"A": "'ab'", "N": 2, "K": "(0, 1, 4, 5, 6)", "NK3": 2, "RK": 0}, "thorough": {"A": "'ab_'", "N": 2, "K": "(0, 1, 3, 4, 5, 6, 7, 10)", "NK3": 6, "RK": 0}}
 _PF = ["StateEngine.notify>asl_state_Pass", "state_engine.merge_result", "apply_resultpath", "StateEngine.change_state"]
 
 
@@ -594,9 +594,10 @@ def pass_resultpath_fresh(p1: str, two: bool, p2: str, i3: int, s1: int, rk: int
 
 
 @condition(timeout={"quick": 120, "thorough": 1200},
-           bounds={"quick": {"NK": 6, "NK3": 2, "K": "(0, 1, 5, 6)"}, "thorough": {"NK": 12, "NK3": 6, "K": "(0, 1, 3, 4, 5, 6, 7, 9, 10)"}},
+           bounds={"quick": {"NK": 6, "NK3": 2, "K": "(0, 1, 5, 6)"}, "thorough": {"NK": 12, "NK3": 6, "K": "(0, 1, 2, 4, 5, 6, 7, 9, 10)"}},
            functions=["StateEngine.notify>asl_state_Pass: InputPath and OutputPath", "handle_error (States.Runtime)"],
-           note="a path that matches nothing fails the state with States.Runtime; otherwise the next state receives exactly the selected value")
+           note="a path that matches nothing fails the state with States.Runtime; otherwise the next state receives exactly the selected value",
+           outside=["a Pass state whose InputPath selects a null member (the null effective input becomes {}: same cause as the null-document finding of read_null_document)"])
 def pass_input_output_path(i1: int, i3: int, s1: int, ii: int, oi: int) -> bool:
     """
     requires: s1 in @K@ and 0 <= ii < 6 and 0 <= oi < 6 and (ii == 0 or oi == 0)
